@@ -293,6 +293,42 @@ def make_machine(stats):
                     self.fail("guard state after a guarded function that re-enters its own wrapper (%d levels, %s) is not the state before it" % (
                         depth, "left by an exception" if raises else "returning"))
 
+        @rule(c1=st.integers(0, 1), c2=st.integers(0, 1), b=st.integers(0, 1), kind=st.sampled_from(["while", "range"]))
+        def break_inside_if(self, c1, c2, b, kind):
+            """module-level block API on one context: a loop, an _if inside it, and _breakif inside the _if. The call is either
+            refused (state unchanged) or the guard stays the conjunction of loop condition, if condition and not-broken"""
+            self.hist.append(["break_inside_if", c1, c2, b, kind])
+            before = self.triple()
+            ns, rt, br = self.ns, self.rt, self.ns.br
+            ctx = br.BranchingValues()
+            ctx.x = rt.PrivVal(1)
+            if kind == "while":
+                br._while(ns.bo.PrivValBool(c1), ctx)
+                loop = [c1]
+            else:
+                it = iter(br._range(rt.PrivVal(c1), max=1, ctx=ctx))
+                next(it)
+                loop = [c1]          # first iteration runs under (0 != stop)
+            try:
+                self.check_inside(loop)
+                br._if(ns.bo.PrivValBool(c2), ctx)
+                self.check_inside(loop + [c2])
+                try:
+                    br._breakif(ns.bo.PrivValBool(b), ctx)
+                    refused = False
+                except core.Violation:
+                    raise
+                except Exception:
+                    refused = True
+                self.check_inside(loop + [c2] + ([] if refused else [1 - b]))
+                br._endif(ctx)
+            finally:
+                del ctx.stack[1:]
+                if ctx.stack:
+                    ctx.stack.pop().end()
+            if any(a is not b_ for a, b_ in zip(before, self.triple())):
+                self.fail("guard state after a loop containing an _if with a _breakif is not the state before it")
+
         # -- invariant
         def check_inside(self, extra):
             rt = self.rt
@@ -429,6 +465,8 @@ def replay(case):
                 m.block_walk(h[1], h[2], h[3], h[4] if len(h) > 4 else None)
             elif h[0] == "reenter":
                 m.reenter(*h[1:])
+            elif h[0] == "break_inside_if":
+                m.break_inside_if(*h[1:])
             m.hist.pop()     # the rule appended it again
             m.hist.append(h)
             m.check_inside([])
